@@ -5,6 +5,8 @@ from __future__ import annotations
 import logging
 from typing import TYPE_CHECKING
 
+import sympy
+
 from mxlpy.meta.sympy_tools import (
     fn_to_sympy,
     list_of_symbols,
@@ -18,8 +20,6 @@ from mxlpy.types import InitialAssignment
 
 if TYPE_CHECKING:
     from collections.abc import Callable
-
-    import sympy
 
     from mxlpy.model import Model
 
@@ -134,13 +134,24 @@ def _generate_model_code(
             assignment_template.format(k=f"d{variable}dt", v=sympy_inline_fn(expr))
         )
 
+    # A variable that no reaction changes stays constant: its derivative is zero, so
+    # that the returned vector has one entry per variable, in the order of the variables
+    if len(diff_eqs) > 0:
+        for variable in variables:
+            if variable not in diff_eqs:
+                source.append(
+                    assignment_template.format(
+                        k=f"d{variable}dt", v=sympy_inline_fn(sympy.Float(0.0))
+                    )
+                )
+
     # Surrogates
     if len(model._surrogates) > 0:  # noqa: SLF001
         msg = "Generating code for Surrogates not yet supported."
         _LOGGER.warning(msg)
 
     # Return
-    ret_order = [i for i in variables if i in diff_eqs]
+    ret_order = list(variables)
     ret = ", ".join(f"d{i}dt" for i in ret_order) if len(diff_eqs) > 0 else "()"
     source.append(return_template.format(ret))
 
